@@ -77,6 +77,11 @@ CATALOGUE = [
     # a protected base is no base for conversions
     ("result-type", "peer", "hidden1"), ("assignment", "ival", "{ a.peer = hidden1; 1 }"), ("assignment", "ival", "{ let v: VfWidget = hidden1; 1 }"),
     ("arguments", "ival", "hidden1.ival"), ("operand-types", "bval", "hidden1 == a"),
+    # a void call is no argument; a namespace is no type
+    ("arguments", "ival", "{ console.log(a.doIt()); 1 }"), ("arguments", "ival", "{ console.warn({I}, a.take({I_d})); 1 }"),
+    ("arguments", "ival", "a.twice(a.doIt())"), ("arguments", "ival", "Math.max(a.doIt(), 1)"),
+    ("assignment", "ival", "{ let v: Qt; 1 }"), ("assignment", "ival", "{ let v: Math; 1 }"), ("assignment", "ival", "{ let v: console; 1 }"),
+    ("assignment", "ival", "{ let v: void; 1 }"), ("assignment", "ival", "{ let v: Qt = 1; v }"),
     # an inherited property keeps the type it has in the class that declares it
     ("assignment", "ival", "{ badge1.mode3 = VfBadge.Circle; 1 }"), ("operand-types", "bval", "badge1.mode3 == VfBadge.Square"),
     ("assignment", "ival", "{ badge1.shape = VfWidget.ModeA; 1 }"), ("operand-types", "bval", "badge1.shape == badge1.mode3"),
